@@ -126,6 +126,15 @@ public:
     void init_lv() { child_or_v_ = kValPtrFlag; }
 
     /**
+     * @details A remove clears the slot (init_lv) before it shrinks the permutation and it
+     * does not change the node version, so an optimistic reader can still find the slot.
+     * @return true if this slot holds neither a value nor a next layer.
+     */
+    [[nodiscard]] bool is_cleared() const {
+        return loadAcquireN(child_or_v_) == kValPtrFlag;
+    }
+
+    /**
      * @details This is move process.
      * @param nlv
      */
